@@ -259,7 +259,10 @@ class TraverserVisitor:
             accept(o.analyzed, self)
 
     def visit_type_application(self, o: TypeApplication) -> None:
-        accept(o.expr, self)
+        # A type application only exists as the `analyzed` form of an index
+        # expression, and its `expr` is that index expression's `base`, which
+        # `visit_index_expr` has already visited.
+        pass
 
     def visit_lambda_expr(self, o: LambdaExpr) -> None:
         self.visit_func(o)
